@@ -35,6 +35,30 @@ pub fn spaces(tier: Tier) -> Vec<Space<'static>> {
         }
         acc.sample(|| json!({"a": format!("{:?}", d.vals[i]), "b": format!("{:?}", d.vals[(i * 7 + 3) % n])}));
     }));
+    // the tree implementation (reached when an argument is JSON text) against the same rules
+    let fin: std::sync::Arc<Vec<usize>> = std::sync::Arc::new((0..n).filter(|i| d.texts[*i].is_some()).step_by(if tier.thorough() { 1 } else { 2 }).collect());
+    let (d3, f1) = (d.clone(), fin.clone());
+    sp.push(Space::new("all-pairs-text-form", fin.len() as u64, move |k, acc| {
+        let d = &d3;
+        let i = f1[k as usize];
+        let ti = d.texts[i].as_ref().unwrap().as_bytes();
+        for &j in f1.iter() {
+            acc.eval();
+            let tj = d.texts[j].as_ref().unwrap().as_bytes();
+            // what the texts denote: non-negative integers are unsigned after parsing, which does not
+            // change containment (numbers match by value)
+            let exp = ref_contains(&d.vals[i], &d.vals[j]);
+            match guard(|| jsonb::contains(ti, tj)) {
+                Err(p) => acc.vio(&format!("contains-text:{}", panic_class(&p)), || json!({"a": d.texts[i], "b": d.texts[j]})),
+                Ok(o) => {
+                    if o != exp {
+                        let class = if exp { "contains-text:false-but-rules-say-true" } else { "contains-text:true-but-rules-say-false" };
+                        acc.vio(class, || json!({"a": d.texts[i], "b": d.texts[j], "expected": exp, "observed": o}));
+                    }
+                }
+            }
+        }
+    }));
     let d2 = d.clone();
     sp.push(Space::new("laws-on-own-matrix", 1, move |_, acc| {
         use rayon::prelude::*;
